@@ -178,4 +178,628 @@ theorem lemma_leaf_grammar_fs (tag : Tag) :
     · exact lemma_leaf_grammar_fs tag rest (i+1) l hg.2 hl
 end
 
+
+/-! ### what one phase guarantees -/
+
+theorem lemma_specOK_ok (P : Params) (cfg : Cfg) (tag : Tag) (fs : List Fld) (init v : Val) (s : Src)
+    (h : specOK P cfg tag fs init s (.ok v) = true) :
+    (∀ l, Item.leaf l ∈ itemsFs tag 0 fs → ambiguous s l = true ∨ ∃ e ∈ (expect P cfg s init l).oks, holds init v l e = true) ∧
+    (∀ f, Item.frame f ∈ itemsFs tag 0 fs → holdsFrame init v f = true) ∧
+    (∀ n, Item.node n ∈ itemsFs tag 0 fs → n.depth ≤ cfg.maxDepth) := by
+  simp only [specOK, Bool.and_eq_true, Bool.not_eq_true', List.all_eq_true, Bool.or_eq_true, List.any_eq_true,
+    mustFail, Bool.or_eq_false_iff, List.any_eq_false, leavesOf, nodesOf, framesOf, List.mem_filterMap, items] at h
+  obtain ⟨⟨⟨_, hn⟩, hl⟩, hf⟩ := h
+  refine ⟨?_, ?_, ?_⟩
+  · intro l hlm
+    exact hl l ⟨.leaf l, hlm, rfl⟩
+  · intro f hfm
+    exact hf f ⟨.frame f, hfm, rfl⟩
+  · intro n hnm
+    have := hn n ⟨.node n, hnm, rfl⟩
+    simpa using this
+
+/-- a successful phase of a multi-source bind, read on the items of the *original* type -/
+theorem lemma_phase_facts (P : Params) (hP : FloatSane P) (cfg : Cfg) (fs : List Fld) (ph : Phase) (ivs : List Val) (v1 : Val)
+    (hw : wts fs ivs = true) (hg : inGrammarFs fs = true) (hs : srcOK ph.src = true)
+    (hb : bind P cfg ph.src.kind (.struct (phaseFs fs ph)) (.struct ivs) ph.src = .ok v1) :
+    (∀ l0, Item.leaf l0 ∈ itemsFs ph.src.kind 0 fs → ambiguous ph.src (ph.leaf l0) = true ∨
+        ∃ e ∈ (expect P cfg ph.src (.struct ivs) (ph.leaf l0)).oks, holds (.struct ivs) v1 (ph.leaf l0) e = true) ∧
+    (∀ f, Item.frame f ∈ itemsFs ph.src.kind 0 fs → holdsFrame (.struct ivs) v1 f = true) ∧
+    (∀ n, Item.node n ∈ itemsFs ph.src.kind 0 fs → n.depth ≤ cfg.maxDepth) := by
+  unfold phaseFs at hb
+  by_cases hnd : ph.noDefaults = true
+  · simp only [hnd, if_true] at hb
+    have hsp := lemma_bind_meets_spec P hP cfg ph.src.kind (stripFs fs) ivs ph.src
+      (by rw [lemma_strip_wts']; exact hw) (by rw [lemma_strip_grammarFs']; exact hg) hs
+    rw [hb] at hsp
+    obtain ⟨h1, h2, h3⟩ := lemma_specOK_ok P cfg _ _ _ _ _ hsp
+    rw [lemma_items_strip_fs] at h1 h2 h3
+    refine ⟨?_, ?_, ?_⟩
+    · intro l0 hl0
+      have hty := lemma_leaf_grammar_fs ph.src.kind fs 0 l0 hg hl0
+      have := h1 { l0 with dflt := [], ty := stripTy l0.ty } (List.mem_map.2 ⟨.leaf l0, hl0, rfl⟩)
+      simp only [lemma_strip_leafTy l0.ty hty] at this
+      simpa [Phase.leaf, hnd] using this
+    · intro f hf
+      have := h2 { f with ty := stripTy f.ty } (List.mem_map.2 ⟨.frame f, hf, rfl⟩)
+      simpa [holdsFrame, lemma_zero_strip] using this
+    · intro n hn
+      exact h3 n (List.mem_map.2 ⟨.node n, hn, rfl⟩)
+  · have hnd' : ph.noDefaults = false := by simpa using hnd
+    simp only [hnd', Bool.false_eq_true, if_false] at hb
+    have hsp := lemma_bind_meets_spec P hP cfg ph.src.kind fs ivs ph.src hw hg hs
+    rw [hb] at hsp
+    obtain ⟨h1, h2, h3⟩ := lemma_specOK_ok P cfg _ _ _ _ _ hsp
+    refine ⟨?_, h2, h3⟩
+    intro l0 hl0
+    simpa [Phase.leaf, hnd'] using h1 l0 hl0
+
+
+/-! ### one phase, one place -/
+
+theorem lemma_mem_leavesOf (tag : Tag) (fs : List Fld) (l : Leaf) :
+    l ∈ leavesOf tag fs ↔ Item.leaf l ∈ itemsFs tag 0 fs := by
+  simp only [leavesOf, items, List.mem_filterMap]
+  constructor
+  · rintro ⟨x, hx, hxl⟩
+    cases x with
+    | leaf l0 => simp only [Option.some.injEq] at hxl; subst hxl; exact hx
+    | node n => simp at hxl
+    | frame f => simp at hxl
+  · intro h
+    exact ⟨.leaf l, h, rfl⟩
+
+theorem lemma_place_step (P : Params) (cfg : Cfg) (fs : List Fld) (ph : Phase) (ivs : List Val) (v1 : Val)
+    (h1 : ∀ l0, Item.leaf l0 ∈ itemsFs ph.src.kind 0 fs → ambiguous ph.src (ph.leaf l0) = true ∨
+        ∃ e ∈ (expect P cfg ph.src (.struct ivs) (ph.leaf l0)).oks, holds (.struct ivs) v1 (ph.leaf l0) e = true)
+    (h2 : ∀ f, Item.frame f ∈ itemsFs ph.src.kind 0 fs → holdsFrame (.struct ivs) v1 f = true)
+    (T0 : Tag) (l : Leaf) (hl : Item.leaf l ∈ itemsFs T0 0 fs)
+    (A0 : List (Option Val)) (a : Option Val) (ha : a ∈ A0)
+    (hm : matchesAdm l.ty (valAt (.struct ivs) l.path) a = true) :
+    (leavesOf ph.src.kind fs).any (fun l' => l'.path == l.path && ambiguous ph.src (ph.leaf l')) = true ∨
+    ∃ a' ∈ stepAdm P cfg fs l.path ph A0, matchesAdm l.ty (valAt v1 l.path) a' = true := by
+  unfold stepAdm
+  cases hfind : (leavesOf ph.src.kind fs).find? (fun l' => l'.path == l.path) with
+  | some l0 =>
+    -- the place is a leaf of this phase too
+    have hmem : l0 ∈ leavesOf ph.src.kind fs := List.mem_of_find?_eq_some hfind
+    have hpath : l0.path = l.path := by simpa using List.find?_some hfind
+    have hl0 := (lemma_mem_leavesOf _ _ _).1 hmem
+    have hty : l.ty = l0.ty := lemma_samepath_fs T0 ph.src.kind fs 0 l l0 hl hl0 hpath.symm
+    have hplp : (ph.leaf l0).path = l.path := by unfold Phase.leaf; split <;> exact hpath
+    have hplt : (ph.leaf l0).ty = l.ty := by unfold Phase.leaf; split <;> exact hty.symm
+    rcases h1 l0 hl0 with hamb | ⟨e, he, hh⟩
+    · left
+      simp only [List.any_eq_true, Bool.and_eq_true, beq_iff_eq]
+      exact ⟨l0, hmem, hpath, hamb⟩
+    · right
+      simp only
+      have hmap : mapOf (valAt (.struct ivs) (ph.leaf l0).path) = mapOf a := by
+        rw [hplp]; exact lemma_matches_mapOf l.ty _ _ hm
+      have he' : e ∈ (expectV P cfg ph.src (ph.leaf l0) (mapOf a)).oks := by
+        unfold expect at he; rw [hmap] at he; exact he
+      refine ⟨keepOr a e, ?_, ?_⟩
+      · simp only [List.mem_flatMap, List.mem_map]
+        refine ⟨a, ha, e, ?_, by cases e <;> rfl⟩
+        split
+        · rename_i hemp
+          simp only [Bool.and_eq_true] at hemp
+          cases hoks : (expectV P cfg ph.src (ph.leaf l0) (mapOf a)).oks with
+          | nil => rw [hoks] at he'; cases he'
+          | cons _ _ => rw [hoks] at hemp; simp at hemp
+        · exact he'
+      · have := lemma_matches_step (ph.leaf l0) (.struct ivs) v1 a e (by rw [hplp, hplt]; exact hm) hh
+        rw [hplp, hplt] at this
+        exact this
+  | none =>
+    -- no leaf of this phase at the place: it lies in (or is) a field the phase does not bind
+    right
+    simp only
+    refine ⟨a, ha, ?_⟩
+    have hnone : ∀ l' ∈ leavesOf ph.src.kind fs, ¬ l'.path = l.path := by
+      intro l' hl'
+      have := List.find?_eq_none.1 hfind l' hl'
+      simpa using this
+    rcases lemma_cover_fs T0 ph.src.kind fs 0 l hl with ⟨l', hl', hp, _⟩ | ⟨f, r, hf, hp, hz⟩
+    · exact absurd hp (hnone l' ((lemma_mem_leavesOf _ _ _).2 hl'))
+    · have hfr := h2 f hf
+      unfold holdsFrame at hfr
+      rw [hp, lemma_valAt_append] at hm ⊢
+      cases hc : valAt v1 f.path with
+      | none =>
+        cases hw0 : valAt (.struct ivs) f.path with
+        | none => rw [hw0] at hm; simpa using hm
+        | some w => simp [hc, hw0] at hfr
+      | some c =>
+        cases hw0 : valAt (.struct ivs) f.path with
+        | some w =>
+          simp only [hc, hw0, beq_iff_eq] at hfr
+          rw [hw0] at hm
+          simp only [hfr]
+          exact hm
+        | none =>
+          simp only [hc, hw0, beq_iff_eq] at hfr
+          rw [hw0] at hm
+          simp only at hm ⊢
+          have ha' : a = none := by
+            cases a with
+            | none => rfl
+            | some x => simp [matchesAdm] at hm
+          subst ha'
+          rw [hfr]
+          rcases hz with hz | hz
+          · rw [hz]; simp [matchesAdm]
+          · rw [hz]; simp [matchesAdm]
+
+
+/-! ### a path determines the type of the place (leaves and frames, across tags) -/
+
+theorem lemma_leafItems_pathTy (A : Tag) (k : Nat) (h : FieldHdr) (t : Ty) (x : Item) (pt : List Nat × Ty)
+    (hx : x ∈ leafItems A k h t) (hpt : x.pathTy = some pt) : pt = ([k], t) := by
+  unfold leafItems at hx
+  split at hx
+  · simp only [List.mem_singleton] at hx; subst hx; simpa [Item.pathTy] using hpt.symm
+  · split at hx
+    · simp only [List.mem_singleton] at hx; subst hx; simpa [Item.pathTy] using hpt.symm
+    · simp only [List.mem_singleton] at hx; subst hx; simpa [Item.pathTy, leafAt] using hpt.symm
+
+theorem lemma_nested_pathTy (A : Tag) (k : Nat) (h : FieldHdr) (t : Ty) (sub : List Fld) (x : Item) (pt : List Nat × Ty)
+    (hx : x ∈ nestedItems A k h t sub) (hpt : x.pathTy = some pt) :
+    pt = ([k], t) ∨ ∃ y ∈ itemsFs A 0 sub, ∃ pt0, y.pathTy = some pt0 ∧ pt = (k :: pt0.1, pt0.2) := by
+  unfold nestedItems at hx
+  split at hx
+  · simp only [List.mem_singleton] at hx; subst hx
+    left; simpa [Item.pathTy] using hpt.symm
+  · simp only [List.mem_cons, List.mem_map] at hx
+    rcases hx with rfl | ⟨y, hy, rfl⟩
+    · simp [Item.pathTy] at hpt
+    · right
+      rw [lemma_pathTy_below] at hpt
+      cases hyp : y.pathTy with
+      | none => simp [hyp] at hpt
+      | some pt0 =>
+        simp only [hyp, Option.map_some, Option.some.injEq] at hpt
+        exact ⟨y, hy, pt0, hyp, hpt.symm⟩
+
+mutual
+theorem lemma_sameplace_fld (A B : Tag) (k : Nat) (h : FieldHdr) :
+    ∀ (t : Ty) (x y : Item) (p : List Nat) (t1 t2 : Ty), x ∈ itemsFld A k h t → y ∈ itemsFld B k h t →
+      x.pathTy = some (p, t1) → y.pathTy = some (p, t2) → t1 = t2
+  | .struct sub, x, y, p, t1, t2, hx, hy, hpx, hpy => by
+    by_cases hex : h.exported = true
+    · by_cases han : h.anon = true
+      · rw [(lemma_itemsFld_embedded A k h sub hex han).1] at hx
+        rw [(lemma_itemsFld_embedded B k h sub hex han).1] at hy
+        simp only [List.mem_map] at hx hy
+        obtain ⟨x0, hx0, rfl⟩ := hx
+        obtain ⟨y0, hy0, rfl⟩ := hy
+        rw [lemma_pathTy_under] at hpx hpy
+        cases hxp : x0.pathTy with
+        | none => simp [hxp] at hpx
+        | some px =>
+          cases hyp : y0.pathTy with
+          | none => simp [hyp] at hpy
+          | some py =>
+            simp only [hxp, hyp, Option.map_some, Option.some.injEq, Prod.mk.injEq] at hpx hpy
+            have hq : px.1 = py.1 := by
+              have := hpx.1.trans hpy.1.symm
+              simpa using this
+            rw [← hpx.2, ← hpy.2]
+            exact lemma_sameplace_fs A B sub 0 x0 y0 px.1 px.2 py.2 hx0 hy0 (by simp [hxp]) (by simp [hyp, hq])
+      · have han' : h.anon = false := by simpa using han
+        rw [(lemma_itemsFld_nested A k h sub hex han').1] at hx
+        rw [(lemma_itemsFld_nested B k h sub hex han').1] at hy
+        rcases lemma_nested_pathTy A k h _ sub x _ hx hpx with h1 | ⟨x0, hx0, px, hxp, h1⟩ <;>
+        rcases lemma_nested_pathTy B k h _ sub y _ hy hpy with h2 | ⟨y0, hy0, py, hyp, h2⟩
+        · simp only [Prod.mk.injEq] at h1 h2; rw [h1.2, h2.2]
+        · simp only [Prod.mk.injEq] at h1 h2
+          obtain ⟨a, r, hne⟩ := (lemma_items_paths B sub y0 hy0 py hyp).1
+          rw [h1.1, hne] at h2; simp at h2
+        · simp only [Prod.mk.injEq] at h1 h2
+          obtain ⟨a, r, hne⟩ := (lemma_items_paths A sub x0 hx0 px hxp).1
+          rw [h2.1, hne] at h1; simp at h1
+        · simp only [Prod.mk.injEq] at h1 h2
+          have hq : px.1 = py.1 := by
+            have := h1.1.symm.trans h2.1
+            simpa using this
+          rw [h1.2, h2.2]
+          exact lemma_sameplace_fs A B sub 0 x0 y0 px.1 px.2 py.2 hx0 hy0 (by simp [hxp]) (by simp [hyp, hq])
+    · have hex' : h.exported = false := by simpa using hex
+      rw [lemma_itemsFld_unexported A k h _ hex'] at hx
+      rw [lemma_itemsFld_unexported B k h _ hex'] at hy
+      simp only [List.mem_singleton] at hx hy
+      subst hx; subst hy
+      simp only [Item.pathTy, Option.some.injEq, Prod.mk.injEq] at hpx hpy
+      rw [← hpx.2, ← hpy.2]
+  | .ptr (.struct sub), x, y, p, t1, t2, hx, hy, hpx, hpy => by
+    by_cases hex : h.exported = true
+    · by_cases han : h.anon = true
+      · rw [(lemma_itemsFld_embedded A k h sub hex han).2] at hx
+        rw [(lemma_itemsFld_embedded B k h sub hex han).2] at hy
+        simp only [List.mem_map] at hx hy
+        obtain ⟨x0, hx0, rfl⟩ := hx
+        obtain ⟨y0, hy0, rfl⟩ := hy
+        rw [lemma_pathTy_under] at hpx hpy
+        cases hxp : x0.pathTy with
+        | none => simp [hxp] at hpx
+        | some px =>
+          cases hyp : y0.pathTy with
+          | none => simp [hyp] at hpy
+          | some py =>
+            simp only [hxp, hyp, Option.map_some, Option.some.injEq, Prod.mk.injEq] at hpx hpy
+            have hq : px.1 = py.1 := by
+              have := hpx.1.trans hpy.1.symm
+              simpa using this
+            rw [← hpx.2, ← hpy.2]
+            exact lemma_sameplace_fs A B sub 0 x0 y0 px.1 px.2 py.2 hx0 hy0 (by simp [hxp]) (by simp [hyp, hq])
+      · have han' : h.anon = false := by simpa using han
+        rw [(lemma_itemsFld_nested A k h sub hex han').2] at hx
+        rw [(lemma_itemsFld_nested B k h sub hex han').2] at hy
+        rcases lemma_nested_pathTy A k h _ sub x _ hx hpx with h1 | ⟨x0, hx0, px, hxp, h1⟩ <;>
+        rcases lemma_nested_pathTy B k h _ sub y _ hy hpy with h2 | ⟨y0, hy0, py, hyp, h2⟩
+        · simp only [Prod.mk.injEq] at h1 h2; rw [h1.2, h2.2]
+        · simp only [Prod.mk.injEq] at h1 h2
+          obtain ⟨a, r, hne⟩ := (lemma_items_paths B sub y0 hy0 py hyp).1
+          rw [h1.1, hne] at h2; simp at h2
+        · simp only [Prod.mk.injEq] at h1 h2
+          obtain ⟨a, r, hne⟩ := (lemma_items_paths A sub x0 hx0 px hxp).1
+          rw [h2.1, hne] at h1; simp at h1
+        · simp only [Prod.mk.injEq] at h1 h2
+          have hq : px.1 = py.1 := by
+            have := h1.1.symm.trans h2.1
+            simpa using this
+          rw [h1.2, h2.2]
+          exact lemma_sameplace_fs A B sub 0 x0 y0 px.1 px.2 py.2 hx0 hy0 (by simp [hxp]) (by simp [hyp, hq])
+    · have hex' : h.exported = false := by simpa using hex
+      rw [lemma_itemsFld_unexported A k h _ hex'] at hx
+      rw [lemma_itemsFld_unexported B k h _ hex'] at hy
+      simp only [List.mem_singleton] at hx hy
+      subst hx; subst hy
+      simp only [Item.pathTy, Option.some.injEq, Prod.mk.injEq] at hpx hpy
+      rw [← hpx.2, ← hpy.2]
+  | .prim q, x, y, p, t1, t2, hx, hy, hpx, hpy => by
+    rw [lemma_itemsFld_leaf A k h _ (by simp [structFields?])] at hx
+    rw [lemma_itemsFld_leaf B k h _ (by simp [structFields?])] at hy
+    have h1 := lemma_leafItems_pathTy A k h _ x _ hx hpx
+    have h2 := lemma_leafItems_pathTy B k h _ y _ hy hpy
+    simp only [Prod.mk.injEq] at h1 h2
+    rw [h1.2, h2.2]
+  | .slice e, x, y, p, t1, t2, hx, hy, hpx, hpy => by
+    rw [lemma_itemsFld_leaf A k h _ (by simp [structFields?])] at hx
+    rw [lemma_itemsFld_leaf B k h _ (by simp [structFields?])] at hy
+    have h1 := lemma_leafItems_pathTy A k h _ x _ hx hpx
+    have h2 := lemma_leafItems_pathTy B k h _ y _ hy hpy
+    simp only [Prod.mk.injEq] at h1 h2
+    rw [h1.2, h2.2]
+  | .map e, x, y, p, t1, t2, hx, hy, hpx, hpy => by
+    rw [lemma_itemsFld_leaf A k h _ (by simp [structFields?])] at hx
+    rw [lemma_itemsFld_leaf B k h _ (by simp [structFields?])] at hy
+    have h1 := lemma_leafItems_pathTy A k h _ x _ hx hpx
+    have h2 := lemma_leafItems_pathTy B k h _ y _ hy hpy
+    simp only [Prod.mk.injEq] at h1 h2
+    rw [h1.2, h2.2]
+  | .ptr (.prim q), x, y, p, t1, t2, hx, hy, hpx, hpy => by
+    rw [lemma_itemsFld_leaf A k h _ (by simp [structFields?])] at hx
+    rw [lemma_itemsFld_leaf B k h _ (by simp [structFields?])] at hy
+    have h1 := lemma_leafItems_pathTy A k h _ x _ hx hpx
+    have h2 := lemma_leafItems_pathTy B k h _ y _ hy hpy
+    simp only [Prod.mk.injEq] at h1 h2
+    rw [h1.2, h2.2]
+  | .ptr (.ptr e), x, y, p, t1, t2, hx, hy, hpx, hpy => by
+    rw [lemma_itemsFld_leaf A k h _ (by simp [structFields?])] at hx
+    rw [lemma_itemsFld_leaf B k h _ (by simp [structFields?])] at hy
+    have h1 := lemma_leafItems_pathTy A k h _ x _ hx hpx
+    have h2 := lemma_leafItems_pathTy B k h _ y _ hy hpy
+    simp only [Prod.mk.injEq] at h1 h2
+    rw [h1.2, h2.2]
+  | .ptr (.slice e), x, y, p, t1, t2, hx, hy, hpx, hpy => by
+    rw [lemma_itemsFld_leaf A k h _ (by simp [structFields?])] at hx
+    rw [lemma_itemsFld_leaf B k h _ (by simp [structFields?])] at hy
+    have h1 := lemma_leafItems_pathTy A k h _ x _ hx hpx
+    have h2 := lemma_leafItems_pathTy B k h _ y _ hy hpy
+    simp only [Prod.mk.injEq] at h1 h2
+    rw [h1.2, h2.2]
+  | .ptr (.map e), x, y, p, t1, t2, hx, hy, hpx, hpy => by
+    rw [lemma_itemsFld_leaf A k h _ (by simp [structFields?])] at hx
+    rw [lemma_itemsFld_leaf B k h _ (by simp [structFields?])] at hy
+    have h1 := lemma_leafItems_pathTy A k h _ x _ hx hpx
+    have h2 := lemma_leafItems_pathTy B k h _ y _ hy hpy
+    simp only [Prod.mk.injEq] at h1 h2
+    rw [h1.2, h2.2]
+theorem lemma_sameplace_fs (A B : Tag) :
+    ∀ (fs : List Fld) (i : Nat) (x y : Item) (p : List Nat) (t1 t2 : Ty), x ∈ itemsFs A i fs → y ∈ itemsFs B i fs →
+      x.pathTy = some (p, t1) → y.pathTy = some (p, t2) → t1 = t2
+  | [], i, x, y, p, t1, t2, hx, _, _, _ => by simp [itemsFs] at hx
+  | (h, t) :: rest, i, x, y, p, t1, t2, hx, hy, hpx, hpy => by
+    simp only [itemsFs, List.mem_append] at hx hy
+    rcases hx with hx | hx <;> rcases hy with hy | hy
+    · exact lemma_sameplace_fld A B i h t x y p t1 t2 hx hy hpx hpy
+    · obtain ⟨q, hq, _⟩ := lemma_zero_fld A i h t x hx _ hpx
+      obtain ⟨j, q', hq'⟩ := lemma_items_head B rest (i+1) y hy _ hpy
+      simp only at hq hq'
+      rw [hq] at hq'
+      simp only [List.cons.injEq] at hq'
+      omega
+    · obtain ⟨q, hq, _⟩ := lemma_zero_fld B i h t y hy _ hpy
+      obtain ⟨j, q', hq'⟩ := lemma_items_head A rest (i+1) x hx _ hpx
+      simp only at hq hq'
+      rw [hq] at hq'
+      simp only [List.cons.injEq] at hq'
+      omega
+    · exact lemma_sameplace_fs A B rest (i+1) x y p t1 t2 hx hy hpx hpy
+end
+
+
+/-! ### the run over the phases -/
+
+theorem lemma_holdsFrame_eq (init v : Val) (f f' : Frame) (hp : f'.path = f.path) (hz : zero f'.ty = zero f.ty) :
+    holdsFrame init v f' = holdsFrame init v f := by
+  unfold holdsFrame
+  rw [hp, hz]
+
+theorem lemma_holdsFrame_refl (v : Val) (f : Frame) : holdsFrame v v f = true := by
+  unfold holdsFrame
+  cases valAt v f.path <;> simp
+
+theorem lemma_holdsFrame_trans (v0 v1 v2 : Val) (f : Frame) (h1 : holdsFrame v0 v1 f = true) (h2 : holdsFrame v1 v2 f = true) :
+    holdsFrame v0 v2 f = true := by
+  unfold holdsFrame at *
+  cases h0 : valAt v0 f.path <;> cases hv1 : valAt v1 f.path <;> cases hv2 : valAt v2 f.path <;>
+    simp_all
+
+/-- the error of a phase is admitted by the oracle for that phase (whatever the destination held) -/
+def PhaseErr (P : Params) (cfg : Cfg) (fs : List Fld) (ph : Phase) (e : Err) : Prop :=
+  ∃ ivs' : List Val, e ∈ causes P cfg ph.src.kind (phaseFs fs ph) (.struct ivs') ph.src
+
+theorem lemma_run (P : Params) (hP : FloatSane P) (cfg : Cfg) (fs : List Fld) (hg : inGrammarFs fs = true) :
+    ∀ (phs : List Phase), (∀ ph ∈ phs, srcOK ph.src = true) → ∀ ivs : List Val, wts fs ivs = true →
+    match runPhases P cfg fs phs (.struct ivs) with
+    | .ok v =>
+      (∀ ph ∈ phs, ∀ n, Item.node n ∈ itemsFs ph.src.kind 0 fs → n.depth ≤ cfg.maxDepth) ∧
+      (∀ (T0 : Tag) (l : Leaf), Item.leaf l ∈ itemsFs T0 0 fs → ∀ (A0 : List (Option Val)) (a : Option Val), a ∈ A0 →
+        matchesAdm l.ty (valAt (.struct ivs) l.path) a = true →
+        phs.any (fun ph => (leavesOf ph.src.kind fs).any (fun l' => l'.path == l.path && ambiguous ph.src (ph.leaf l'))) = true ∨
+        ∃ a' ∈ phs.foldl (fun A ph => stepAdm P cfg fs l.path ph A) A0, matchesAdm l.ty (valAt v l.path) a' = true) ∧
+      (∀ f : Frame, (∀ ph ∈ phs, ∃ f', Item.frame f' ∈ itemsFs ph.src.kind 0 fs ∧ f'.path = f.path ∧ zero f'.ty = zero f.ty) →
+        holdsFrame (.struct ivs) v f = true)
+    | .err e => ∃ ph ∈ phs, PhaseErr P cfg fs ph e
+    | .panic => False
+  | [], _, ivs, _ => by
+    simp only [runPhases]
+    refine ⟨by simp, ?_, fun f _ => lemma_holdsFrame_refl _ f⟩
+    intro T0 l _ A0 a ha hm
+    right
+    exact ⟨a, by simpa using ha, hm⟩
+  | ph :: rest, hs, ivs, hw => by
+    have hsph : srcOK ph.src = true := hs ph (by simp)
+    have hwp : wts (phaseFs fs ph) ivs = true := by
+      unfold phaseFs; split
+      · rw [lemma_strip_wts']; exact hw
+      · exact hw
+    have hgp : inGrammarFs (phaseFs fs ph) = true := by
+      unfold phaseFs; split
+      · rw [lemma_strip_grammarFs']; exact hg
+      · exact hg
+    simp only [runPhases]
+    cases hb : bind P cfg ph.src.kind (.struct (phaseFs fs ph)) (.struct ivs) ph.src with
+    | panic =>
+      have hsp := lemma_bind_meets_spec P hP cfg ph.src.kind (phaseFs fs ph) ivs ph.src hwp hgp hsph
+      rw [hb] at hsp
+      simp [toObs, specOK] at hsp
+    | err e =>
+      have hsp := lemma_bind_meets_spec P hP cfg ph.src.kind (phaseFs fs ph) ivs ph.src hwp hgp hsph
+      rw [hb] at hsp
+      simp only [toObs, specOK, List.contains_iff_mem] at hsp
+      exact ⟨ph, by simp, ivs, by simpa using hsp⟩
+    | ok v1 =>
+      simp only
+      -- the intermediate value is well typed
+      have hty := lemma_bindAt_typed P cfg ph.src.kind cfg.maxDepth (phaseFs fs ph) ivs { src := ph.src } 0 v1 hwp hgp
+        (by simpa [Rivaas.Bind.bind] using hb)
+      obtain ⟨rvs, hv1, hwr⟩ : ∃ rvs, v1 = .struct rvs ∧ wts fs rvs = true := by
+        cases v1 with
+        | struct rvs =>
+          refine ⟨rvs, rfl, ?_⟩
+          have : wts (phaseFs fs ph) rvs = true := by simpa [wt] using hty
+          unfold phaseFs at this
+          split at this
+          · rw [lemma_strip_wts'] at this; exact this
+          · exact this
+        | _ => simp [wt] at hty
+      subst hv1
+      obtain ⟨f1, f2, f3⟩ := lemma_phase_facts P hP cfg fs ph ivs (.struct rvs) hw hg hsph hb
+      have ih := lemma_run P hP cfg fs hg rest (fun p hp => hs p (by simp [hp])) rvs hwr
+      cases hr : runPhases P cfg fs rest (.struct rvs) with
+      | panic => rw [hr] at ih; exact ih
+      | err e =>
+        rw [hr] at ih
+        obtain ⟨p, hp, he⟩ := ih
+        exact ⟨p, by simp [hp], he⟩
+      | ok v =>
+        rw [hr] at ih
+        obtain ⟨i1, i2, i3⟩ := ih
+        refine ⟨?_, ?_, ?_⟩
+        · intro p hp n hn
+          simp only [List.mem_cons] at hp
+          rcases hp with rfl | hp
+          · exact f3 n hn
+          · exact i1 p hp n hn
+        · intro T0 l hl A0 a ha hm
+          simp only [List.any_cons, List.foldl_cons, Bool.or_eq_true]
+          rcases lemma_place_step P cfg fs ph ivs (.struct rvs) f1 f2 T0 l hl A0 a ha hm with hamb | ⟨a1, ha1, hm1⟩
+          · exact Or.inl (Or.inl hamb)
+          · rcases i2 T0 l hl _ a1 ha1 hm1 with hamb | hres
+            · exact Or.inl (Or.inr hamb)
+            · exact Or.inr hres
+        · intro f hf
+          obtain ⟨f', hf', hp, hz⟩ := hf ph (by simp)
+          have h01 : holdsFrame (.struct ivs) (.struct rvs) f = true := by
+            rw [← lemma_holdsFrame_eq _ _ f f' hp hz]; exact f2 f' hf'
+          exact lemma_holdsFrame_trans _ _ _ f h01 (i3 f (fun p hp' => hf p (by simp [hp'])))
+
+
+/-! ### assembly -/
+
+theorem lemma_expectV_errs (P : Params) (cfg : Cfg) (s : Src) (l : Leaf) (m0 m0' : List (Bytes × Val)) :
+    (expectV P cfg s l m0).errs = (expectV P cfg s l m0').errs := by
+  unfold expectV
+  split <;> try rfl
+  all_goals
+    rename_i v _
+    cases v <;> rfl
+
+theorem lemma_mem_nodesOf (tag : Tag) (fs : List Fld) (n : Node) :
+    n ∈ nodesOf tag fs ↔ Item.node n ∈ itemsFs tag 0 fs := by
+  simp only [nodesOf, items, List.mem_filterMap]
+  constructor
+  · rintro ⟨x, hx, hxl⟩
+    cases x with
+    | node n0 => simp only [Option.some.injEq] at hxl; subst hxl; exact hx
+    | leaf l => simp at hxl
+    | frame f => simp at hxl
+  · intro h
+    exact ⟨.node n, h, rfl⟩
+
+theorem lemma_mem_framesOf (tag : Tag) (fs : List Fld) (f : Frame) :
+    f ∈ framesOf tag fs ↔ Item.frame f ∈ itemsFs tag 0 fs := by
+  simp only [framesOf, items, List.mem_filterMap]
+  constructor
+  · rintro ⟨x, hx, hxl⟩
+    cases x with
+    | frame f0 => simp only [Option.some.injEq] at hxl; subst hxl; exact hx
+    | leaf l => simp at hxl
+    | node n => simp at hxl
+  · intro h
+    exact ⟨.frame f, h, rfl⟩
+
+/-- an error of a phase, read on the items of the original type -/
+theorem lemma_phase_err (P : Params) (cfg : Cfg) (fs : List Fld) (hg : inGrammarFs fs = true) (ph : Phase) (init : Val) (e : Err)
+    (h : PhaseErr P cfg fs ph e) :
+    e ∈ ((leavesOf ph.src.kind fs).flatMap fun l0 =>
+        ((expect P cfg ph.src init (ph.leaf l0)).errs ++
+          (if ambiguous ph.src (ph.leaf l0) then [Err.conv, Err.sliceLen, Err.mapSize] else [])).map (wrapErr (ph.leaf l0).names)) ++
+      ((nodesOf ph.src.kind fs).filter (fun n => cfg.maxDepth < n.depth)).map (fun n => wrapErr n.names .depth) := by
+  obtain ⟨ivs', he⟩ := h
+  unfold causes at he
+  simp only [List.mem_append, List.mem_flatMap, List.mem_map, List.mem_filter] at he ⊢
+  rcases he with ⟨l, hl, c, hc, hce⟩ | ⟨n, ⟨hn, hd⟩, hne⟩
+  · left
+    -- the leaf of the phase's type is the phase's reading of a leaf of the original type
+    have hl' := (lemma_mem_leavesOf _ _ _).1 hl
+    unfold phaseFs at hl'
+    by_cases hnd : ph.noDefaults = true
+    · simp only [hnd, if_true] at hl'
+      rw [lemma_items_strip_fs] at hl'
+      simp only [List.mem_map] at hl'
+      obtain ⟨x, hx, hxl⟩ := hl'
+      cases x with
+      | node n => simp [stripItem] at hxl
+      | frame f => simp [stripItem] at hxl
+      | leaf l0 =>
+        simp only [stripItem, Item.leaf.injEq] at hxl
+        have hty := lemma_leaf_grammar_fs ph.src.kind fs 0 l0 hg hx
+        rw [lemma_strip_leafTy l0.ty hty] at hxl
+        have hpl : ph.leaf l0 = l := by simp [Phase.leaf, hnd, hxl]
+        refine ⟨l0, (lemma_mem_leavesOf _ _ _).2 hx, c, ?_, by rw [hpl]; exact hce⟩
+        rw [hpl]
+        unfold expect at hc ⊢
+        rw [lemma_expectV_errs P cfg ph.src l _ (mapOf (valAt (.struct ivs') l.path))]
+        exact hc
+    · have hnd' : ph.noDefaults = false := by simpa using hnd
+      simp only [hnd', Bool.false_eq_true, if_false] at hl'
+      have hpl : ph.leaf l = l := by simp [Phase.leaf, hnd']
+      refine ⟨l, (lemma_mem_leavesOf _ _ _).2 hl', c, ?_, by rw [hpl]; exact hce⟩
+      rw [hpl]
+      unfold expect at hc ⊢
+      rw [lemma_expectV_errs P cfg ph.src l _ (mapOf (valAt (.struct ivs') l.path))]
+      exact hc
+  · right
+    have hn' := (lemma_mem_nodesOf _ _ _).1 hn
+    unfold phaseFs at hn'
+    refine ⟨n, ⟨(lemma_mem_nodesOf _ _ _).2 ?_, hd⟩, hne⟩
+    by_cases hnd : ph.noDefaults = true
+    · simp only [hnd, if_true] at hn'
+      rw [lemma_items_strip_fs] at hn'
+      simp only [List.mem_map] at hn'
+      obtain ⟨x, hx, hxl⟩ := hn'
+      cases x with
+      | leaf l => simp [stripItem] at hxl
+      | frame f => simp [stripItem] at hxl
+      | node n0 => simp only [stripItem, Item.node.injEq] at hxl; subst hxl; exact hx
+    · have hnd' : ph.noDefaults = false := by simpa using hnd
+      simpa [hnd'] using hn'
+
+theorem lemma_phases_srcOK (fs : List Fld) (srcs : List Src) (hs : ∀ s ∈ srcs, srcOK s = true) :
+    ∀ ph ∈ phasesOf fs srcs, srcOK ph.src = true := by
+  have hempty : ∀ s : Src, srcOK { s with kvs := [] } = true := by
+    intro s
+    simp only [srcOK, List.all_nil, Bool.true_and]
+    cases s.kind <;> rfl
+  intro ph hph
+  unfold phasesOf at hph
+  simp only at hph
+  split at hph
+  · simp only [List.mem_map, List.mem_filter] at hph
+    obtain ⟨s, ⟨hsm, _⟩, rfl⟩ := hph
+    exact hs s hsm
+  · simp only [List.mem_append, List.mem_map, List.mem_filter] at hph
+    rcases hph with ⟨s, ⟨hsm, _⟩, rfl⟩ | ⟨s, ⟨hsm, _⟩, rfl⟩
+    · exact hempty s
+    · exact hs s hsm
+
+/-- **C04, several sources.** What `bindMultiSource` returns — for any list of sources in any
+    order, any type of the grammar, any well-typed destination — is admitted by the folded oracle:
+    leaf by leaf the value of the last source that holds the key, else the default, else what was
+    there; fields no source binds untouched; errors name the field; never a panic. -/
+theorem lemma_bindMulti_meets_spec (P : Params) (hP : FloatSane P) (cfg : Cfg) (fs : List Fld) (ivs : List Val)
+    (srcs : List Src) (hw : wts fs ivs = true) (hg : inGrammarFs fs = true) (hs : ∀ s ∈ srcs, srcOK s = true) :
+    specMulti P cfg fs (.struct ivs) srcs (toObs (bindMulti P cfg fs (.struct ivs) srcs)) = true := by
+  rw [lemma_bindMulti_phases]
+  by_cases he : srcs.isEmpty = true
+  · simp [he, toObs, specMulti]
+  · have he' : srcs.isEmpty = false := by simpa using he
+    simp only [he', Bool.false_eq_true, if_false]
+    have hrun := lemma_run P hP cfg fs hg (phasesOf fs srcs) (lemma_phases_srcOK fs srcs hs) ivs hw
+    cases hr : runPhases P cfg fs (phasesOf fs srcs) (.struct ivs) with
+    | panic => rw [hr] at hrun; exact absurd hrun (by simp)
+    | err e =>
+      rw [hr] at hrun
+      obtain ⟨ph, hph, hpe⟩ := hrun
+      simp only [toObs, specMulti, he', Bool.false_and, Bool.false_or, List.contains_iff_mem, multiCauses,
+        List.mem_flatMap]
+      exact ⟨ph, hph, lemma_phase_err P cfg fs hg ph (.struct ivs) e hpe⟩
+    | ok v =>
+      rw [hr] at hrun
+      obtain ⟨r1, r2, r3⟩ := hrun
+      simp only [toObs, specMulti, he', Bool.not_false, Bool.true_and, Bool.and_eq_true, List.all_eq_true,
+        decide_eq_true_eq, List.mem_flatMap, List.mem_map, Bool.or_eq_true]
+      refine ⟨⟨?_, ?_⟩, ?_⟩
+      · intro ph hph n hn
+        exact r1 ph hph n ((lemma_mem_nodesOf _ _ _).1 hn)
+      · rintro pt ⟨ph, hph, l, hl, rfl⟩
+        have hl' := (lemma_mem_leavesOf _ _ _).1 hl
+        rcases r2 ph.src.kind l hl' [valAt (.struct ivs) l.path] _ (by simp) (lemma_matches_refl l.ty _) with h | ⟨a', ha', hm⟩
+        · exact Or.inl h
+        · right
+          simp only [List.any_eq_true]
+          exact ⟨a', ha', hm⟩
+      · cases hphs : phasesOf fs srcs with
+        | nil => simp
+        | cons ph0 rest =>
+          simp only [List.all_eq_true, List.mem_filter, List.any_eq_true, beq_iff_eq]
+          rintro f ⟨hf0, hfr⟩
+          have hf0' := (lemma_mem_framesOf _ _ _).1 hf0
+          apply r3 f
+          intro ph hph
+          rw [hphs] at hph
+          simp only [List.mem_cons] at hph
+          rcases hph with rfl | hph
+          · exact ⟨f, hf0', rfl, rfl⟩
+          · obtain ⟨f', hf', hp⟩ := hfr ph hph
+            have hf'' := (lemma_mem_framesOf _ _ _).1 hf'
+            have hty : f'.ty = f.ty :=
+              lemma_sameplace_fs ph.src.kind ph0.src.kind fs 0 (.frame f') (.frame f) f.path f'.ty f.ty hf'' hf0'
+                (by simp [Item.pathTy, hp]) (by simp [Item.pathTy])
+            exact ⟨f', hf'', hp, by rw [hty]⟩
+
 end Rivaas.Bind
